@@ -57,3 +57,46 @@ let run (id : string) (ops : string list) (out : out_channel) =
   Stdlib.List.iteri (fun i o -> Printf.fprintf out "%s\t%d\t%s\n" id i (show o)) tr
 
 let registered = Registry.register "C17" run
+
+(* ---- extraction cross-check inside Coq (see c18.ml): run_trace on the case's ops, recomputed by
+   vm_compute, must equal the obs list this extracted runner computed (64-bit hashes as 0x literals). *)
+let coq_kind = function
+  | C17Model.LEthernet -> "LEthernet" | C17Model.LFDDI -> "LFDDI" | C17Model.LIPv4 -> "LIPv4"
+  | C17Model.LIPv6 -> "LIPv6" | C17Model.LLinuxSLL -> "LLinuxSLL" | C17Model.LLinuxSLL2 -> "LLinuxSLL2"
+  | C17Model.LPPP -> "LPPP" | C17Model.LRUDP -> "LRUDP" | C17Model.LSCTP -> "LSCTP"
+  | C17Model.LTCP -> "LTCP" | C17Model.LUDP -> "LUDP" | C17Model.LUDPLite -> "LUDPLite"
+let coq_op (o : C17Model.op) = match o with
+  | C17Model.ONewE (t, r) -> Printf.sprintf "ONewE %s %s" (coq_z t) (coq_zlist r)
+  | C17Model.ONewF (t, a, b) -> Printf.sprintf "ONewF %s %s %s" (coq_z t) (coq_zlist a) (coq_zlist b)
+  | C17Model.OFromE (i, j) -> Printf.sprintf "OFromE %s %s" (coq_nat i) (coq_nat j)
+  | C17Model.OEndpoints k -> "OEndpoints " ^ coq_nat k
+  | C17Model.OSrc k -> "OSrc " ^ coq_nat k
+  | C17Model.ODst k -> "ODst " ^ coq_nat k
+  | C17Model.ORev k -> "ORev " ^ coq_nat k
+  | C17Model.OInvalid -> "OInvalid"
+  | C17Model.OCmpE (i, j) -> Printf.sprintf "OCmpE %s %s" (coq_nat i) (coq_nat j)
+  | C17Model.OCmpF (k, l) -> Printf.sprintf "OCmpF %s %s" (coq_nat k) (coq_nat l)
+  | C17Model.OLayer (k, d) -> Printf.sprintf "OLayer %s %s" (coq_kind k) (coq_zlist d)
+  | C17Model.OPacket d -> "OPacket " ^ coq_zlist d
+let coq_ev (v : C17Model.eview) =
+  Printf.sprintf "(mkEV %s %s %s)" (coq_z v.C17Model.ev_typ) (coq_zlist v.C17Model.ev_raw) (coq_z v.C17Model.ev_hash)
+let coq_fv (v : C17Model.fview) =
+  Printf.sprintf "(mkFV %s %s %s %s)" (coq_z v.C17Model.fv_typ) (coq_zlist v.C17Model.fv_src) (coq_zlist v.C17Model.fv_dst) (coq_z v.C17Model.fv_hash)
+let coq_obs (o : C17Model.obs) = match o with
+  | C17Model.BSkip -> "BSkip"
+  | C17Model.BPanic -> "BPanic"
+  | C17Model.BErr c -> "BErr " ^ coq_z c
+  | C17Model.BEnds es -> "BEnds " ^ coq_list coq_ev es
+  | C17Model.BFlow f -> "BFlow " ^ coq_fv f
+  | C17Model.BBoth (e, f) -> Printf.sprintf "BBoth %s %s" (coq_ev e) (coq_fv f)
+  | C17Model.BCmpE (a, b, c, d) -> Printf.sprintf "BCmpE %s %s %s %s" (coq_bool a) (coq_bool b) (coq_bool c) (coq_bool d)
+  | C17Model.BCmpF (a, b, c) -> Printf.sprintf "BCmpF %s %s %s" (coq_bool a) (coq_bool b) (coq_bool c)
+  | C17Model.BStack (l, n, t) -> Printf.sprintf "BStack %s %s %s" (coq_option coq_fv l) (coq_option coq_fv n) (coq_option coq_fv t)
+let to_coq (idx : int) (ops : string list) (out : out_channel) =
+  let l = Stdlib.List.map parse_op ops in
+  let nbytes = Stdlib.List.fold_left (fun a o -> match o with
+    | C17Model.OLayer (_, d) | C17Model.OPacket d -> a + Stdlib.List.length d | _ -> a) 0 l in
+  if nbytes <= 600 then
+    coq_example out idx ("run_trace " ^ coq_list coq_op l)
+      ("[" ^ String.concat ";\n     " (Stdlib.List.map coq_obs (C17Model.run_trace l)) ^ "]")
+let registered_coq = Registry.register_coq "C17" ("From GP Require Import Base C17Model.\n", to_coq)
